@@ -35,6 +35,22 @@ class Pre:
         for v in ("heap", "code", "return_stack", "loops", "special", "flow_stack", "nested", "debug_map", "dict"):
             vec = L.field(S, "State", v)
             self.pc.append(z3.ULE(vec.prefix[1], z3.BitVecVal(BIG, 64)))
+        # the variable heap is random access: cells are addressed by CellRef index
+        self.heap = L.field(S, "State", "heap")
+        self.heap.slots = {}
+        # context marks: the symbolic bottom part of each auxiliary stack is exactly the part hidden by the
+        # current context; what a lemma puts on top explicitly is the visible part
+        for fld, vec in (("rs_len", "return_stack"), ("ls_len", "loops"), ("ss_ptr", "special"), ("fs_len", "flow_stack")):
+            mark = L.field(self.ctx, "Context", fld)
+            self.pc.append(mark.t == L.field(S, "State", vec).prefix[1])
+        # the binary-parsing variables live in distinct heap cells (allocated one after another by load)
+        bm = L.field(S, "State", "bitstr_mod")
+        refs = []
+        for f in ("big_endian", "offset", "input", "stash", "output", "output_len"):
+            cr = L.field(bm, "BitstrState", f, "cell::CellRef")
+            refs.append(L.ex.step_get(None, cr, ("f", 0, "usize")).t)
+        self.cellrefs = dict(zip(("big_endian", "offset", "input", "stash", "output", "output_len"), refs))
+        self.pc.append(z3.Distinct(*refs))
         self.pc.append(z3.ULE(L.field(S, "State", "insn_meter").t, z3.BitVecVal(BIG, 64)))
 
     def roots(self):
